@@ -167,14 +167,14 @@ def run(tier, seed):
     q = tier == "quick"
     for name in ("cosine", "sine"):
         for cb in (True, False):
-            for _ in range(4 if q else 30):
+            for _ in range(10 if q else 60):
                 trig_case(ctx, PL, drv, rng, name, cb, tier)
     for cb in (True, False):
-        for _ in range(5 if q else 30):
+        for _ in range(12 if q else 60):
             inv_case(ctx, PL, drv, rng, cb, tier)
     for name in G.REG:
         if G.REG[name][1] == "erf":
-            for _ in range(4 if q else 30):
+            for _ in range(10 if q else 60):
                 erf_case(ctx, PL, rng, name, tier)
     ctx.assumptions = ["erf-family clause: the documented targets are recomputed with scipy.special.erf / numpy (independent of pyqsp) and the least-squares fit "
                        "through the discrete Chebyshev transform on the first-kind nodes (explored, not proved)"]
